@@ -144,6 +144,8 @@ func init() {
 					Entry: "verifHarness_C07_apply", Unwind: 8,
 					Redirect:      map[string]string{"(*" + repoMod + ".FSM).applyRobustMessage": "verifStub_applyRobustMessage"},
 					NativePatches: markNativePatches},
+				{Name: "replay-real-step", Pkg: "", PkgName: "main", Files: []string{"main/c07.go"}, SymFiles: []string{"main/tmp_sym.go"}, NatFiles: []string{"main/tmp_native.go"},
+					Entry: "verifHarness_C07_modreplay", Unwind: 8},
 				{Name: "snapshot", Pkg: "", PkgName: "main", Files: []string{"main/c02.go", "main/c07.go", "main/c16.go"}, SymFiles: []string{"main/tmp_sym.go"}, NatFiles: []string{"main/tmp_native.go"},
 					Entry: "verifHarness_C07_snapshot", Params: map[string]int{"entries": 2}, Unwind: 10, NoReplay: true,
 					Redirect: map[string]string{
@@ -161,7 +163,7 @@ func init() {
 		},
 		Bounds:    func(tier string) map[string]interface{} { return map[string]interface{}{"entries": 1, "template": "see C14"} },
 		Outside:   []string{"process restart and replay from the durable log by hashicorp/raft", "interplay with real snapshots (see C02)"},
-		Functions: []string{"main.(*FSM).applyProto", "raftstore.(*LevelDBStore).StoreLogProto", "robust.(*Message).ProtoMessage", "robust.NewMessageFromBytes", "ircserver.(*IRCServer).UpdateLastClientMessageID"},
+		Functions: []string{"main.(*FSM).applyProto", "raftstore.(*LevelDBStore).StoreLogProto", "robust.(*Message).ProtoMessage", "robust.NewMessageFromBytes", "ircserver.(*IRCServer).UpdateLastClientMessageID", "main.(*FSM).applyRobustMessage (MessageOfDeath case, with and without output stream)"},
 		Rule:      "cases: (panic?, encoding) for the marking half; one case for the replay half; non-trivial when the exit observer or the final assertions are reached",
 	})
 }
